@@ -115,6 +115,8 @@ pub assume_specification<T>[Option::<T>::or](r: Option<T>, d: Option<T>) -> (res
     ensures res == (match r { Some(v) => Some(v), None => d });
 
 pub assume_specification<T>[<Box<T> as From<T>>::from](t: T) -> (r: Box<T>) ensures *r == t;
+pub assume_specification<T: ?Sized, A: std::alloc::Allocator>[<Box<T, A> as AsRef<T>>::as_ref](b: &Box<T, A>) -> (r: &T) ensures r == &**b;
+pub assume_specification<T: ?Sized, A: std::alloc::Allocator>[<Arc<T, A> as AsRef<T>>::as_ref](b: &Arc<T, A>) -> (r: &T) ensures r == &**b;
 // string byte lengths and byte-range slicing (std; a range that is out of bounds or not on a char boundary PANICS)
 /// UTF-8 length of a code point / of a string (definition of the encoding; `String::len` is ASSUMED to return it)
 pub open spec fn utf8_len(c: char) -> nat { if (c as u32) < 0x80 { 1 } else if (c as u32) < 0x800 { 2 } else if (c as u32) < 0x10000 { 3 } else { 4 } }
